@@ -21,9 +21,12 @@ pub enum FamId {
     /// a toy custom scheme with a 4-byte public key under the key "t" and 6-byte signatures:
     /// records of ~21 bytes, i.e. below the 56-byte threshold of the long list header
     Tiny,
+    /// the toy scheme with message-dependent signature lengths of 50..=61 bytes (crosses the 55/56
+    /// boundary of the RLP string header from one signature to the next)
+    Mid,
 }
 pub const BUILTIN_FAMS: [FamId; 5] = [FamId::K256, FamId::Libsecp, FamId::Ed, FamId::CombinedSecp, FamId::CombinedEd];
-pub const ALL_FAMS: [FamId; 8] = [
+pub const ALL_FAMS: [FamId; 9] = [
     FamId::K256,
     FamId::Libsecp,
     FamId::Ed,
@@ -32,6 +35,7 @@ pub const ALL_FAMS: [FamId; 8] = [
     FamId::Var,
     FamId::Wide,
     FamId::Tiny,
+    FamId::Mid,
 ];
 
 impl FamId {
@@ -47,13 +51,13 @@ impl FamId {
             FamId::Libsecp => Some(KeyType::Libsecp),
             FamId::Ed => Some(KeyType::Ed),
             FamId::CombinedSecp | FamId::CombinedEd => Some(KeyType::Combined),
-            FamId::Var | FamId::Wide | FamId::Tiny => None,
+            FamId::Var | FamId::Wide | FamId::Tiny | FamId::Mid => None,
         }
     }
     /// name of the public-key entry this family stores
     pub fn key_name(self) -> &'static [u8] {
         match self {
-            FamId::Tiny => b"t",
+            FamId::Tiny | FamId::Mid => b"t",
             f => f.scheme().key_name(),
         }
     }
@@ -67,19 +71,20 @@ impl FamId {
             FamId::Var => "varkey",
             FamId::Wide => "widekey",
             FamId::Tiny => "tinykey",
+            FamId::Mid => "midkey",
         }
     }
     /// length of signatures of this family, None = variable
     pub fn fixed_sig_len(self) -> Option<usize> {
         match self {
-            FamId::Var | FamId::Wide => None,
+            FamId::Var | FamId::Wide | FamId::Mid => None,
             FamId::Tiny => Some(6),
             _ => Some(64),
         }
     }
     /// is `secret` usable as a secret of this family's scheme
     pub fn secret_ok(self, s: &[u8; 32]) -> bool {
-        if self == FamId::Tiny {
+        if matches!(self, FamId::Tiny | FamId::Mid) {
             return true;
         }
         match self.scheme() {
@@ -89,7 +94,7 @@ impl FamId {
     }
     /// reference-derived public key bytes (as stored in the record)
     pub fn ref_pk(self, s: &[u8; 32]) -> Vec<u8> {
-        if self == FamId::Tiny {
+        if matches!(self, FamId::Tiny | FamId::Mid) {
             return tiny_pk(s).to_vec();
         }
         match self.scheme() {
@@ -281,7 +286,12 @@ impl Fam for VarKey {
 // stored under "t"; signature = keccak256("tiny-sig" || pk || msg)[..6].  Legitimate as an EnrKey
 // implementation; its records are ~21 bytes long.
 
-pub struct TinyKey(pub [u8; 32]);
+pub struct TinyKey(pub [u8; 32], pub bool);
+
+/// signature length of the `Mid` variant for this message: 50..=61
+pub fn mid_len(msg: &[u8]) -> usize {
+    50 + (keccak256(&[b"mid-len".as_ref(), msg].concat())[0] % 12) as usize
+}
 #[derive(Clone, Debug)]
 pub struct TinyPub(pub [u8; 4]);
 
@@ -290,10 +300,24 @@ pub fn tiny_pk(secret: &[u8; 32]) -> [u8; 4] {
     [h[0], h[1], h[2], h[3]]
 }
 pub fn tiny_sign(pk: &[u8], msg: &[u8]) -> Vec<u8> {
-    keccak256(&[b"tiny-sig".as_ref(), pk, msg].concat())[..6].to_vec()
+    tiny_sign_len(pk, msg, 6)
+}
+pub fn tiny_sign_len(pk: &[u8], msg: &[u8], len: usize) -> Vec<u8> {
+    let mut out = Vec::new();
+    let mut ctr = 0u8;
+    while out.len() < len {
+        out.extend_from_slice(&keccak256(&[b"tiny-sig".as_ref(), pk, msg, &[ctr]].concat()));
+        ctr += 1;
+    }
+    if len == 6 {
+        // the 6-byte form keeps its original definition
+        return keccak256(&[b"tiny-sig".as_ref(), pk, msg].concat())[..6].to_vec();
+    }
+    out.truncate(len);
+    out
 }
 pub fn tiny_verify(pk: &[u8], msg: &[u8], sig: &[u8]) -> crypto::Verdict {
-    if pk.len() == 4 && sig == tiny_sign(pk, msg).as_slice() {
+    if pk.len() == 4 && (sig == tiny_sign(pk, msg).as_slice() || (sig.len() == mid_len(msg) && sig == tiny_sign_len(pk, msg, sig.len()).as_slice())) {
         crypto::Verdict::Valid
     } else {
         crypto::Verdict::Invalid
@@ -302,7 +326,11 @@ pub fn tiny_verify(pk: &[u8], msg: &[u8], sig: &[u8]) -> crypto::Verdict {
 impl EnrKey for TinyKey {
     type PublicKey = TinyPub;
     fn sign_v4(&self, msg: &[u8]) -> Result<Vec<u8>, SigningError> {
-        Ok(tiny_sign(&tiny_pk(&self.0), msg))
+        if self.1 {
+            Ok(tiny_sign_len(&tiny_pk(&self.0), msg, mid_len(msg)))
+        } else {
+            Ok(tiny_sign(&tiny_pk(&self.0), msg))
+        }
     }
     fn public(&self) -> TinyPub {
         TinyPub(tiny_pk(&self.0))
@@ -336,8 +364,8 @@ impl EnrPublicKey for TinyPub {
     }
 }
 impl Fam for TinyKey {
-    fn make(_: FamId, s: &[u8; 32]) -> Self {
-        TinyKey(*s)
+    fn make(id: FamId, s: &[u8; 32]) -> Self {
+        TinyKey(*s, id == FamId::Mid)
     }
 }
 
@@ -347,6 +375,7 @@ pub fn ref_sign(id: FamId, secret: &[u8; 32], content: &[u8], alt: bool) -> Vec<
     match id {
         FamId::Var | FamId::Wide => var_sign(secret, content, var_units(id, secret)),
         FamId::Tiny => tiny_sign(&tiny_pk(secret), content),
+        FamId::Mid => tiny_sign_len(&tiny_pk(secret), content, mid_len(content)),
         _ => match id.scheme() {
             Scheme::Secp => {
                 if alt {
